@@ -33,6 +33,10 @@ func runSteps(w *World, steps []Step, res *Result,
 				return
 			}
 		}
+		if v == stopRun {
+			res.Foreign++
+			return
+		}
 		if v != nil {
 			v.Step = i
 			res.Violation = v
@@ -40,6 +44,10 @@ func runSteps(w *World, steps []Step, res *Result,
 		}
 	}
 }
+
+// stopRun is returned by a step function to cut the run because of a panic
+// that belongs to another property.
+var stopRun = &Violation{Signature: "stop"}
 
 func finish(w *World, res *Result) *Result {
 	res.Probes = w.Probes
